@@ -1,25 +1,29 @@
-"""Apply every kept seeded change to /repo in turn, run all registered quick checks, undo; write seeded/RESULTS.json/.md."""
-import json, os, subprocess, sys
+"""Run all registered quick checks against every kept seeded change and write seeded/RESULTS.json/.md.
+
+Each seed is applied to a scratch copy of /repo's package (outside /repo and /verif, removed afterwards); the checks
+read it through RXSA_REPO and write their evidence to a scratch directory, so neither /repo nor /verif/evidence is
+touched.  (tools/seedcheck.sh does the same against /repo itself: git apply / run / git checkout.)"""
+import json, os, shutil, subprocess, sys, tempfile
+from concurrent.futures import ThreadPoolExecutor
 V = os.path.dirname(os.path.dirname(os.path.abspath(__file__)))
 S = os.path.join(V, "seeded")
-assert subprocess.run(["git", "-C", "/repo", "diff", "--quiet"]).returncode == 0, "/repo dirty"
-rows = []
-for name in sorted(os.listdir(S)):
+
+
+def one(name):
     d = os.path.join(S, name)
     pf = os.path.join(d, "patch.diff")
-    if not os.path.isfile(pf):
-        continue
     meta = json.load(open(os.path.join(d, "meta.json")))
-    ap = subprocess.run(["git", "-C", "/repo", "apply", pf], capture_output=True, text=True)
-    if ap.returncode != 0:
-        rows.append({"seed": name, "property": meta.get("property"), "title": meta.get("title"), "applies": False, "fired": []})
-        continue
+    tmp = tempfile.mkdtemp(prefix="rxsa_seed_")
     try:
-        out = subprocess.run([sys.executable, os.path.join(V, "tools", "run_all.py"), "quick"], capture_output=True, text=True).stdout
+        shutil.copytree("/repo/reactivex", os.path.join(tmp, "reactivex"), ignore=shutil.ignore_patterns("__pycache__"))
+        ap = subprocess.run(["patch", "-p1", "-s", "--no-backup-if-mismatch", "-i", pf], cwd=tmp, capture_output=True, text=True)
+        if ap.returncode != 0:
+            return {"seed": name, "property": meta.get("property"), "title": meta.get("title"), "applies": False, "fired": [], "analysis_errors": []}
+        env = dict(os.environ, RXSA_REPO=tmp, RXSA_EVID_DIR=os.path.join(tmp, "evidence"))
+        out = subprocess.run([sys.executable, os.path.join(V, "tools", "run_all.py"), "quick"], capture_output=True, text=True, env=env).stdout
     finally:
-        subprocess.run(["git", "-C", "/repo", "checkout", "--", "."])
-    fired = []
-    errors = []
+        shutil.rmtree(tmp, ignore_errors=True)
+    fired, errors = [], []
     for l in out.splitlines():
         if " rc=1 " in l:
             pid = l.split()[0]
@@ -27,16 +31,29 @@ for name in sorted(os.listdir(S)):
             fired.append(f"{pid}:{rules}")
         if " rc=2 " in l:
             errors.append(l.split()[0])
-    rows.append({"seed": name, "property": meta.get("property"), "title": meta.get("title"), "applies": True,
-                 "fired": fired, "analysis_errors": errors})
-json.dump(rows, open(os.path.join(S, "RESULTS.json"), "w"), indent=1)
-with open(os.path.join(S, "RESULTS.md"), "w") as fh:
-    fh.write("| seed | property | change | detected by |\n|---|---|---|---|\n")
+    return {"seed": name, "property": meta.get("property"), "title": meta.get("title"), "applies": True, "fired": fired, "analysis_errors": errors}
+
+
+def main():
+    names = [n for n in sorted(os.listdir(S)) if os.path.isfile(os.path.join(S, n, "patch.diff")) and not n.startswith("_")]
+    with ThreadPoolExecutor(4) as ex:
+        rows = list(ex.map(one, names))
+    json.dump(rows, open(os.path.join(S, "RESULTS.json"), "w"), indent=1)
+    with open(os.path.join(S, "RESULTS.md"), "w") as fh:
+        fh.write("| seed | property | change | detected by (check:rules) |\n|---|---|---|---|\n")
+        for r in rows:
+            det = ", ".join(r["fired"]) if r["fired"] else ("(patch no longer applies)" if not r["applies"] else "**MISSED**")
+            own = any(f.split(":")[0] == r["property"] for f in r["fired"])
+            fh.write(f"| {r['seed']} | {r['property']} | {r['title']} | {det}{'' if own or not r['fired'] else ' (not by its own property check)'} |\n")
+    n = sum(1 for r in rows if r["fired"])
+    print(f"{n}/{len(rows)} seeded changes detected")
     for r in rows:
-        det = ", ".join(r["fired"]) if r["fired"] else ("(patch no longer applies)" if not r["applies"] else "**MISSED**")
-        fh.write(f"| {r['seed']} | {r['property']} | {r['title']} | {det} |\n")
-n = sum(1 for r in rows if r["fired"])
-print(f"{n}/{len(rows)} seeded changes detected")
-for r in rows:
-    if not r["fired"]:
-        print("MISSED" if r["applies"] else "NOAPPLY", r["seed"], r["title"])
+        if not r["fired"]:
+            print("MISSED" if r["applies"] else "NOAPPLY", r["seed"], r["title"])
+        if r["analysis_errors"]:
+            print("ANALYSIS-ERROR on", r["seed"], r["analysis_errors"])
+    return 0
+
+
+if __name__ == "__main__":
+    sys.exit(main())
